@@ -11,6 +11,8 @@ RULE = (
     "OS thread per logical thread gated by a baton) up to the stated preemption bound, for each configuration "
     "(items, threads, functor kind, granularity); scheduling points = every Queue.put/get, Event.set/isSet, Thread.start/join, "
     "result append/extend and functor step ('sync'), or additionally every source line of thread_pool.py ('fine'). "
+    "Histories: the judged call preceded, in the same process, by a call whose input raises while being fed "
+    "('sync-after-feedraise') or by a successful call ('sync-after-ok'); both calls run under the scheduler. "
     "A class is (configuration, observed completion order of items by worker) -- distinct interleaving outcomes."
 )
 ASSUMPTIONS = [
@@ -19,8 +21,8 @@ ASSUMPTIONS = [
     "Queue is unbounded as in map_async; a blocking call made with a timeout may end through its timer (bounded deviation, at most 1 per execution); map_async itself uses no timeouts",
 ]
 BOUNDS = {
-    "quick": "timers: at most 1 timer may fire per execution (counts against the bound); sync points: (2 items,2 threads) bound 2; (3,2),(2,3),(1,2),(0,2),(3,1) bound 1; fine (line-level) points: (2,2) bound 1",
-    "thorough": "sync points: (2,2) bound 3 for every functor; (3,2),(2,3) bound 2 for gen_all/list/raise1; (3,3) bound 2 and (4,2) bound 1 for gen_all; fine points: (2,2) bound 2 (gen_all, list), (3,2) bound 1; no-len iterable (3,2) bound 2",
+    "quick": "timers: at most 1 timer may fire per execution (counts against the bound); sync points: (2 items,2 threads) bound 2; (3,2),(2,3),(1,2),(0,2),(3,1) bound 1; fine (line-level) points: (2,2) bound 1; two-call histories (2,2) bound 1",
+    "thorough": "sync points: (2,2) bound 3 for every functor; (3,2),(2,3) bound 2 for gen_all/list/raise1; (3,3) bound 2 and (4,2) bound 1 for gen_all; fine points: (2,2) bound 2 (gen_all, list), (3,2) bound 1; no-len iterable (3,2) bound 2; two-call histories (2,2) bound 2",
 }
 
 TIME_CAP = {"thorough": 2400}
@@ -38,6 +40,8 @@ def configs(tier):
         out.append((2, 2, "gen_all", "fine", 1))
         out.append((2, 2, "list", "fine", 1))
         out.append((2, 2, "gen_all", "sync-nolen", 1))
+        out.append((2, 2, "gen_all", "sync-after-feedraise", 1))
+        out.append((2, 2, "list", "sync-after-ok", 1))
     else:
         for f in FUNCTORS:
             out.append((2, 2, f, "sync", 3))
@@ -50,14 +54,22 @@ def configs(tier):
         out.append((2, 2, "list", "fine", 2))
         out.append((3, 2, "gen_all", "fine", 1))
         out.append((3, 2, "gen_all", "sync-nolen", 2))
+        out.append((2, 2, "gen_all", "sync-after-feedraise", 2))
+        out.append((2, 2, "list", "sync-after-feedraise", 1))
+        out.append((2, 2, "gen_all", "sync-after-ok", 2))
     return out
 
 
 def run_one(cfg, prefix):
     """One execution of map_async under the scheduler.  Returns (points, outcome dict)."""
+    import importlib
+
     from pkgcore.util import thread_pool
     from verif.engines import sched as S
 
+    # every execution starts from fresh module-level state: executions must be independent of one another
+    # (a history is explicit, see 'sync-after-*'), otherwise a candidate would not reproduce in a fresh process
+    thread_pool = importlib.reload(thread_pool)
     n, nthreads, fkind, gran, _bound = cfg
     fine = ("thread_pool.py",) if gran == "fine" else ()
     sc = S.Scheduler(prefix=prefix, horizon=6000, fine_files=fine)
@@ -108,9 +120,27 @@ def run_one(cfg, prefix):
 
     result = {}
 
+    def functor0(it, *a, **kw):
+        for _item in it:
+            pass
+        return None
+
     def main():
         items = list(range(n))
         iterable = iter(items) if gran == "sync-nolen" else items
+        if gran in ("sync-after-feedraise", "sync-after-ok"):
+            # history: an earlier call in the same process (its input raising while being fed, resp. succeeding);
+            # the judged call below must be unaffected by it
+            def feed():
+                yield 100
+                if gran == "sync-after-feedraise":
+                    raise KeyError("feed")
+                yield 101
+
+            try:
+                list(thread_pool.map_async(feed(), functor0, threads=nthreads))
+            except KeyError:
+                pass
         try:
             result["value"] = list(thread_pool.map_async(iterable, functor, threads=nthreads))
         except BaseException as e:  # noqa
